@@ -172,6 +172,13 @@ def intOfStr : List Char → M Int
   | '+' :: cs => match digitsToNat cs with | some n => pure (Int.ofNat n) | none => throw "ValueError"
   | cs => match digitsToNat cs with | some n => pure (Int.ofNat n) | none => throw "ValueError"
 
+/-- `int(s, base=16)` for a string of hexadecimal digits with an optional sign (python also accepts a `0x` prefix, blanks and
+    underscores: not modelled, they raise here) -/
+def intOfHex : List Char → M Int
+  | '-' :: cs => if cs.isEmpty then throw "ValueError" else do pure (-(← cs.foldlM (fun acc c => do pure (16 * acc + (← hexDigit c))) (0 : Int)))
+  | '+' :: cs => if cs.isEmpty then throw "ValueError" else cs.foldlM (fun acc c => do pure (16 * acc + (← hexDigit c))) (0 : Int)
+  | cs => if cs.isEmpty then throw "ValueError" else cs.foldlM (fun acc c => do pure (16 * acc + (← hexDigit c))) (0 : Int)
+
 /-- `re.match(r'^e[0-9a-fA-F]*$', s)`: an `e` followed by hexadecimal digits only -/
 def isHexChar (c : Char) : Bool :=
   let n := c.toNat
